@@ -2831,7 +2831,10 @@ fn run_sequence(w: &mut NdjsonWriter, rng: &mut ChaCha20Rng, base: &Base, reds: 
         if missing(&proj[0].1, 4) {
             closing.push(Op::Prove { pool: Pool::Ironwood });
         }
-        if list_len(&proj[0].1, "sspend") + list_len(&proj[0].1, "soutput") > 0 {
+        let (ssp, sso) = (s_sspend(), s_soutput());
+        if at(&proj[0].1, &[Step::F(2), Step::F(0)]).seq().iter().any(|x| x.field(&ssp, "zkproof").opt().is_none())
+            || at(&proj[0].1, &[Step::F(2), Step::F(1)]).seq().iter().any(|x| x.field(&sso, "zkproof").opt().is_none())
+        {
             closing.push(Op::ProveSap);
         }
     }
@@ -3189,7 +3192,7 @@ fn cmd_roles(trace_path: &str, nseq: usize, tier: &str) {
     let reds = redactions();
     let keys = ProvingKeys::build();
     let no_keys = ProvingKeys::none();
-    // proofs: every shielded sequence in the thorough tier, the first two per shielded base otherwise
+    // proofs: every shielded sequence in the thorough tier, the first one per shielded base otherwise
     let mut proven: BTreeMap<&'static str, usize> = BTreeMap::new();
     let bases = bases_for(tier, seed);
     let mut w = NdjsonWriter::create(trace_path);
@@ -3212,7 +3215,7 @@ fn cmd_roles(trace_path: &str, nseq: usize, tier: &str) {
         let with_proofs = which != 0 && {
             let n = proven.entry(base.name).or_insert(0);
             *n += 1;
-            tier == "thorough" || *n <= 2
+            tier == "thorough" || *n <= 1
         };
         if let Err(e) = run_sequence(&mut w, &mut rng, base, &reds, if with_proofs { &keys } else { &no_keys }, steps, &mut ops_log, &mut stats) {
             failure = Some(json!({"sequence": sidx, "base": base.name, "what": e, "ops": ops_log}));
